@@ -22,9 +22,11 @@ def work(job):
     name, smt, rlimit, timeout_ms, use_cvc5, both = job; t0 = time.time()
     status, backend, second = "unknown", None, None
     E, EA, D = Z3_CONFIGS[0][1], Z3_CONFIGS[2][1], Z3_CONFIGS[1][1]
-    stages = [("z3-ematch", lambda: _z3(smt, E, rlimit // 8, max(15000, timeout_ms // 8)))]
-    if use_cvc5: stages.append(("cvc5", lambda: _cvc5(smt, min(10000, max(2000, timeout_ms // 4)))))
-    stages += [("z3-ematch-auto", lambda: _z3(smt, EA, rlimit // 8, max(15000, timeout_ms // 8))),
+    W = lambda frac, floor: max(floor, int(timeout_ms * frac))
+    # a quick pass of every configuration with a small budget first (most obligations are decided in well under a second by ONE of them), then the long budgets
+    stages = [("z3-ematch", lambda: _z3(smt, E, rlimit // 40, W(1 / 40, 4000))), ("z3-ematch-auto", lambda: _z3(smt, EA, rlimit // 40, W(1 / 40, 4000)))]
+    if use_cvc5: stages.append(("cvc5", lambda: _cvc5(smt, W(1 / 20, 5000))))
+    stages += [("z3-ematch", lambda: _z3(smt, E, rlimit // 8, W(1 / 8, 15000))), ("z3-ematch-auto", lambda: _z3(smt, EA, rlimit // 8, W(1 / 8, 15000))),
                ("z3-ematch", lambda: _z3(smt, dict(E, **{"smt.random_seed": 7}), rlimit // 2, timeout_ms // 2))]
     if use_cvc5: stages.append(("cvc5", lambda: _cvc5(smt, timeout_ms // 2)))
     stages.append(("z3-default", lambda: _z3(smt, D, rlimit, timeout_ms)))
